@@ -361,3 +361,69 @@ Proof.
   intros H1 H2 H3 Hq Hin E Hne. pose proof (step_spec st now r H1 H2 H3) as S. rewrite E in S.
   destruct S as (_ & _ & S). now apply S.
 Qed.
+
+(* ---------- the stored history as a time-keyed map ---------- *)
+
+Fixpoint hist_sorted (h : hist) : Prop :=
+  match h with
+  | [] => True
+  | (t, _) :: r => (forall e, In e r -> t < fst e) /\ hist_sorted r
+  end.
+
+Lemma hist_prune_in h now e : In e (hist_prune h now) <-> In e h /\ now - fst e <= MAX_AGE.
+Proof.
+  unfold hist_prune. rewrite filter_In. unfold fresh. split; intros [H1 H2]; split; auto; lia.
+Qed.
+
+Lemma hist_prune_sorted h now : hist_sorted h -> hist_sorted (hist_prune h now).
+Proof.
+  induction h as [|[t l] h IH]; [auto|]. intros [Hlt Hs]. unfold hist_prune. cbn [filter].
+  fold (hist_prune h now). destruct (fresh now (t, l)); [|auto].
+  split; [|auto]. intros e He. apply hist_prune_in in He as [He _]. auto.
+Qed.
+
+(* BTreeMap::insert: the entry at t is the new one; every other entry is unchanged *)
+Lemma hist_insert_in h : forall t l e, hist_sorted h ->
+  (In e (hist_insert h t l) <-> e = (t, l) \/ (In e h /\ fst e <> t)).
+Proof.
+  induction h as [|[t' l'] h IH]; intros t l e Hs; cbn [hist_insert].
+  - cbn. split; [intros [H|[]]; auto|intros [H|[[] _]]; auto].
+  - destruct Hs as [Hlt Hs]. destruct (t <? t') eqn:E1.
+    + cbn [In]. split.
+      * intros [H|[H|H]]; [left; auto|right; subst e; cbn; split; [auto|lia]|].
+        right. split; [auto|]. specialize (Hlt e H). lia.
+      * intros [H|[H _]]; [left; auto|right; exact H].
+    + destruct (t =? t') eqn:E2.
+      * assert (t = t') by lia. subst t'. cbn [In]. split.
+        -- intros [H|H]; [left; auto|]. right. split; [auto|]. specialize (Hlt e H). lia.
+        -- intros [H|[[H|H] Hne]]; [left; auto| |right; exact H]. subst e. cbn in Hne. congruence.
+      * cbn [In]. rewrite IH by exact Hs. split.
+        -- intros [H|[H|[H Hne]]]; [right; subst e; cbn; split; [auto|lia]|left; exact H|right; auto].
+        -- intros [H|[[H|H] Hne]]; [right; left; exact H|left; exact H|right; right; auto].
+Qed.
+
+Lemma hist_insert_sorted h : forall t l, hist_sorted h -> hist_sorted (hist_insert h t l).
+Proof.
+  induction h as [|[t' l'] h IH]; intros t l Hs; cbn [hist_insert].
+  - cbn. split; [intros e []|exact I].
+  - pose proof Hs as Hs0. destruct Hs as [Hlt Hs]. destruct (t <? t') eqn:E1.
+    + split; [|exact Hs0]. intros e [<-|He]; [cbn; lia|]. specialize (Hlt e He). lia.
+    + destruct (t =? t') eqn:E2.
+      * assert (t = t') by lia. subst t'. split; [exact Hlt|exact Hs].
+      * split; [|apply IH; exact Hs]. intros e He. apply hist_insert_in in He; [|exact Hs].
+        destruct He as [->|[He _]]; [cbn; lia|auto].
+Qed.
+
+(* After a call at time `now`: the stored history is sorted by time, holds the current tables at
+   `now`, and otherwise exactly the previously stored entries that are not older than MAX_AGE
+   and were not stored at the same instant. *)
+Lemma step_history st now r e :
+  hist_sorted (prev st) ->
+  hist_sorted (prev (fst (step_gen false st now r))) /\
+  (In e (prev (fst (step_gen false st now r))) <->
+   e = (now, lat r) \/ (In e (prev st) /\ now - fst e <= MAX_AGE /\ fst e <> now)).
+Proof.
+  intros Hs. rewrite step_prev. split.
+  - apply hist_insert_sorted, hist_prune_sorted, Hs.
+  - rewrite hist_insert_in by (apply hist_prune_sorted, Hs). rewrite hist_prune_in. tauto.
+Qed.
